@@ -396,3 +396,53 @@ def run_for_else(P, rep, rule="R-EXCL"):
         rep.ok(rule, "For else", P.where(fn), "else renders only on the len()==0 edge; body only on the other")
     else:
         rep.viol(rule, "For else guard", P.where(fn), "the else branch is not selected by `selected.len() == 0`")
+
+
+# ---------------------------------------------------------------------------------------
+# R-LOOPIDX: loop metadata is computed from a forward enumerate() over the selected elements
+
+def run_loop_index(P, rep, rule="R-LOOPIDX"):
+    from origins import backward_slice
+    specs = [
+        ("<liquid_lib::stdlib::blocks::for_block::For as liquid_core::runtime::renderable::Renderable>::render_to", "ForloopObject"),
+        ("<liquid_lib::stdlib::blocks::for_block::TableRow as liquid_core::runtime::renderable::Renderable>::render_to", "TableRowObject"),
+        ("<liquid_lib::stdlib::tags::render_tag::Render as liquid_core::runtime::renderable::Renderable>::render_to", "ForloopObject"),
+    ]
+    for key, obj in specs:
+        fn = P.fn_by_key(key)
+        site = key.split(" as ")[0].rsplit("::", 1)[-1] + " loop index"
+        news = [(bi, t) for bi, t in P.calls(fn) if t.get("f") and t["f"]["name"].endswith(obj + "::new") or
+                (t.get("f") and t["f"]["name"].endswith(obj + "::<'p>::new"))]
+        if len(news) != 1:
+            rep.viol(rule, site, P.where(fn), "expected one %s::new call, found %d" % (obj, len(news)))
+            continue
+        bi, t = news[0]
+        h = loop_header(P, fn, bi)
+        if h is None:
+            rep.viol(rule, site, P.where(fn), "%s::new is not inside the element loop" % obj)
+            continue
+        ht = fn.blocks[h]["t"]
+        ity = P.tstr(fn.crate, ht["f"]["self_ty"]) if "self_ty" in ht["f"] else "?"
+        probs = []
+        if not (ity.startswith("core::iter::adapters::enumerate::Enumerate<alloc::vec::into_iter::IntoIter<")):
+            probs.append("the element loop iterates %s; index and element must come from a forward enumerate() over the selected vector "
+                         "(reversal belongs to the selection step)" % ity.replace("core::iter::adapters::", ""))
+        # arg0 = the enumerate index of this iteration, arg1 = len() of the selected vector
+        a0 = op_local(t["args"][0])
+        locs, calls = backward_slice(fn, a0[0]) if a0 else (set(), [])
+        if ht["d"][0] not in locs:
+            probs.append("the loop object's index does not derive from the loop's own enumerate() item")
+        arith = [st for b in fn.blocks for st in b["s"] if st[0] == "a" and st[1][0] in locs and st[2]["k"] == "bin"
+                 and st[2]["op"].replace("WithOverflow", "") in ("Sub", "Add", "Mul", "Rem", "Div")]
+        if arith:
+            probs.append("the index passed to the loop object is computed (%s) instead of being the enumerate index itself" %
+                         sorted({st[2]["op"] for st in arith}))
+        a1 = op_local(t["args"][1])
+        locs1, calls1 = backward_slice(fn, a1[0]) if a1 else (set(), [])
+        if not any(c.get("f") and c["f"]["id"].rsplit("::", 1)[1] == "len" for c in calls1):
+            probs.append("the loop object's length is not len() of the selected vector")
+        if probs:
+            for p in probs:
+                rep.viol(rule, site, P.where(fn, t["line"]), p)
+        else:
+            rep.ok(rule, site, P.where(fn, t["line"]), "%s::new(enumerate index, selected.len()) inside a forward Enumerate<IntoIter> loop" % obj)
